@@ -231,10 +231,10 @@ package markdown
 //@ modifies nothing
 //@ ensures result == wrapOut(text, maxLength)
 //@ loop 1
-//@   invariant 0 <= #i && #i <= len(words)
+//@   invariant 0 <= #i && #i <= fieldsLen(text)
 //@   invariant sbContent(line) == wrapLine(text, maxLength, #i)
 //@   invariant sbContent(result) == wrapRes(text, maxLength, #i)
-//@   decreases len(words) - #i
+//@   decreases fieldsLen(text) - #i
 
 //@ spec wrapped(o *ExportOptions, text string) string = ite(o.WrapLongLines && len(text) > o.MaxLineLength, wrapOut(text, o.MaxLineLength), text)
 //@ spec outNormal(pre string, o *ExportOptions, para *document.Paragraph) string = ite(blank(paraText(o, para)), pre + "\n", pre + (wrapped(o, paraText(o, para)) + "\n\n"))
